@@ -59,8 +59,7 @@ def jobs_for(tier, rng):
             else:
                 vi.append(job)
     # action spaces beyond 16-bit index limits
-    # (thorough tier only: the model checker needs minutes for 33 000 actions)
-    for na in ([] if tier == "quick" else [33000]):
+    for na in ([33000] if tier == "quick" else [33000, 66000]):
         # (one state and two sweeps: the model checker's cost grows with states x actions x events of the trace)
         m = T_.random_mdp(rng, ns=1, na=na, ne=1, PD=1, rmax=0, plain_render=True)
         for a in range(na):
